@@ -14,7 +14,9 @@ import (
 
 // VerifH_C12_Uses
 func VerifH_C12_Uses() {
-	cross := vrt.Bool("grouping-in-other-module")
+	where0 := vrt.Choice("grouping-defined-in", 3) // 0 the using module, 1 another module, 2 a submodule of the using module
+	cross := where0 == 1
+	inSub := where0 == 2
 	nested := vrt.Bool("nested-uses")
 	where := vrt.Choice("used-in", 4)    // 0 top level, 1 container, 2 list, 3 case
 	refine := vrt.Choice("refine", 5)    // 0 none, 1 default, 2 mandatory, 3 config false, 4 presence on the grouping's container
@@ -114,17 +116,25 @@ func VerifH_C12_Uses() {
 	if cross {
 		appHead += "import lib { prefix lib; } "
 	}
+	inlinedHead := appHead + "feature f; "
+	if inSub {
+		appHead += "include sub; "
+	}
 	appHead += "feature f; "
 	written := map[string]string{}
 	inlined := map[string]string{}
-	if cross {
+	switch {
+	case cross:
 		written["lib"] = "module lib { namespace 'urn:lib'; prefix lib; " + gtext + "}"
 		inlined["lib"] = written["lib"]
 		written["app"] = appHead + wrap(uses) + "}"
-	} else {
+	case inSub:
+		written["sub"] = "submodule sub { belongs-to app { prefix app; } " + gtext + "}"
+		written["app"] = appHead + wrap(uses) + "}"
+	default:
 		written["app"] = appHead + gtext + wrap(uses) + "}"
 	}
-	inlined["app"] = appHead + wrap(expanded) + "}"
+	inlined["app"] = inlinedHead + wrap(expanded) + "}"
 
 	vrt.Reach("c12.uses.where" + strconv.Itoa(where))
 	feats := featSet{"app:f": true}
